@@ -1,1 +1,13 @@
 import PeptVerif.Props.C12
+#print axioms Pept.C12.condense_spec
+#print axioms Pept.C12.condense_single_letter
+#print axioms Pept.C12.mass_condense
+#print axioms Pept.C12.comp_condense
+#print axioms Pept.C12.mass_condense_any
+#print axioms Pept.C12.count_condense
+#print axioms Pept.C12.label_shift
+#print axioms Pept.C12.label_shift_single
+#print axioms Pept.C12.label_shift_pair
+#print axioms Pept.C12.label_spares_mods
+#print axioms Pept.C12.label_reaches_mods
+#print axioms Pept.C12.label_absent_element
